@@ -47,6 +47,7 @@ type Cfg struct {
 type Daemon struct {
 	Cfg
 	Bin        string
+	Wrap       []string // optional wrapper command (e.g. strace ...) in front of the daemon binary
 	CtlPort    int
 	ListenPort int
 	mu         sync.Mutex
@@ -179,7 +180,12 @@ func (d *Daemon) startOnce(env ...string) error {
 		d.mu.Unlock()
 		return err
 	}
-	cmd := exec.Command(d.Bin, d.args()...)
+	bin, args := d.Bin, d.args()
+	if len(d.Wrap) > 0 {
+		args = append(append([]string{}, d.Wrap[1:]...), append([]string{d.Bin}, args...)...)
+		bin = d.Wrap[0]
+	}
+	cmd := exec.Command(bin, args...)
 	cmd.Stdout = f
 	cmd.Stderr = f
 	cmd.Dir = d.Dir
@@ -267,8 +273,32 @@ func (d *Daemon) Kill() {
 	if cmd == nil {
 		return
 	}
+	if len(d.Wrap) > 0 {
+		// the daemon is a child of the wrapper: kill it first (its detached runners are left alone)
+		for _, pid := range childPids(cmd.Process.Pid) {
+			_ = syscall.Kill(pid, syscall.SIGKILL)
+		}
+	}
 	_ = cmd.Process.Kill()
 	<-done
+}
+
+func childPids(pid int) []int {
+	out := []int{}
+	tasks, _ := os.ReadDir(fmt.Sprintf("/proc/%d/task", pid))
+	for _, t := range tasks {
+		b, err := os.ReadFile(fmt.Sprintf("/proc/%d/task/%s/children", pid, t.Name()))
+		if err != nil {
+			continue
+		}
+		for _, f := range strings.Fields(string(b)) {
+			c := 0
+			if _, err := fmt.Sscan(f, &c); err == nil && c > 1 {
+				out = append(out, c)
+			}
+		}
+	}
+	return out
 }
 
 // Dump sends SIGQUIT (goroutine dump into the output file) and waits for the exit.
